@@ -80,7 +80,11 @@ def r061(prog, chk):
             if not ok:
                 continue
             sx, sy = _coord_source(prog, fi, ax.args[0]), _coord_source(prog, fi, ay.args[0])
-            ok = sx is not None and sy is not None and sx[1] == "x" and sy[1] == "y" and sx[0] == sy[0]
+            if sx is not None and sy is not None and sx[0] == sy[0] == "<param>":
+                # plain parameters: which one carries x and which y is decided at the call sites (checked by R06.4)
+                ok = sx[1] != sy[1]
+            else:
+                ok = sx is not None and sy is not None and sx[1] == "x" and sy[1] == "y" and sx[0] == sy[0]
             chk.ob("R06.1", f"{fi.short}|{A.keytext(fi.node, c)}|x from x, y from y of the same anchor", ok, where(fi, c), detail=f"x <- {sx}, y <- {sy}",
                    message=f"{fi.short}: anchor coordinates are swapped or taken from different anchors (`{T(c, 80)}`)")
     need(n >= 3, f"expected >= 3 Anchor constructions in the mark writer, found {n}")
@@ -258,7 +262,7 @@ def r064(prog, chk):
     need(len(calls) == 1, f"cannot interpret {md.short}: _defineMarkClass call")
     c = calls[0]
     # a name clash makes _defineMarkClass open a new class: the following glyphs of the same anchor class must go there too
-    cn = c.args[3] if len(c.args) > 3 else A.kwarg(c, "className")
+    cn = c.args[3] if len(c.args) > 3 else A.kwarg(c, dm.params()[4] if len(dm.params()) > 4 else "className")
     okc = isinstance(cn, ast.Name)
     if okc:
         ds = prog.reaching(md, cn.id, cn)
@@ -274,10 +278,24 @@ def r064(prog, chk):
         roles[ps[i]] = a
     for kw in c.keywords:
         roles[kw.arg] = kw.value
-    xs, ys = roles.get("x"), roles.get("y")
+    # which parameters of _defineMarkClass end up as Anchor(x=..., y=...) and which as the glyph of the definition
+    px = py = pg = None
+    for ac in [a_ for a_ in A.body_nodes(dm.node) if isinstance(a_, ast.Call) and A.callee_name(a_) == "Anchor"]:
+        ax_, ay_ = A.arg_at(ac, 0, "x"), A.arg_at(ac, 1, "y")
+        if isinstance(ax_, ast.Call) and ax_.args and isinstance(ay_, ast.Call) and ay_.args:
+            sx_, sy_ = _coord_source(prog, dm, ax_.args[0]), _coord_source(prog, dm, ay_.args[0])
+            if sx_ and sy_ and sx_[0] == sy_[0] == "<param>":
+                px, py = sx_[1], sy_[1]
+    for mc_ in [a_ for a_ in A.body_nodes(dm.node) if isinstance(a_, ast.Call) and A.callee_name(a_) == "MarkClassDefinition"]:
+        for a_ in list(mc_.args) + [k.value for k in mc_.keywords]:
+            inner_ = a_.args[0] if isinstance(a_, ast.Call) and A.callee_name(a_) == "GlyphName" and a_.args else a_
+            if isinstance(inner_, ast.Name) and inner_.id in ps and inner_.id not in (px, py) and pg is None:
+                pg = inner_.id
+    need(px is not None and py is not None and pg is not None, f"cannot interpret {dm.short}: x / y / glyph parameters")
+    xs, ys = roles.get(px), roles.get(py)
     ok = isinstance(xs, ast.Attribute) and xs.attr == "x" and isinstance(ys, ast.Attribute) and ys.attr == "y" and T(xs.value) == T(ys.value)
     loopv = [a for a in ix.ancestors(c) if isinstance(a, ast.For)]
-    ok = ok and loopv and T(xs.value) in A.target_names(loopv[0].target) and T(roles.get("glyphName")) in A.target_names(loopv[0].target)
+    ok = ok and loopv and T(xs.value) in A.target_names(loopv[0].target) and T(roles.get(pg)) in A.target_names(loopv[0].target)
     chk.ob("R06.4", f"{md.short}|_defineMarkClass(glyph, anchor.x, anchor.y, ...) of the same (glyph, anchor) item", ok, where(md, c), detail=T(c, 90),
            message=f"{md.short}: _defineMarkClass does not get the x and y of the glyph's own anchor in its x / y parameters")
     sig = external_init_signature("fontTools.feaLib.ast", "MarkClassDefinition")
@@ -529,7 +547,9 @@ def r0610(prog, chk):
     want = {"_makeMarkFeature": nn, "_makeMkmkFeature": nn, "_makeAbvmOrBlwmFeature": an}
     for callee, setname in want.items():
         cs = [c for c in calls_named(mf, callee)]
-        ok = bool(cs) and all(isinstance(A.kwarg(c, "include"), ast.Name) and preds.get(A.kwarg(c, "include").id) == setname for c in cs)
+        def pred_args(c):
+            return [a.id for a in list(c.args) + [k.value for k in c.keywords] if isinstance(a, ast.Name) and a.id in preds]
+        ok = bool(cs) and all(len(pred_args(c)) == 1 and preds.get(pred_args(c)[0]) == setname for c in cs)
         chk.ob("R06.10", f"{mf.short}|{callee}(include = membership in the {'not-' if setname == nn else ''}abvm set)", ok, where(mf, cs[0]) if cs else where(mf), detail=f"include tests membership in {setname}",
                message=f"{mf.short}: {callee} is not restricted to the {'non-' if setname == nn else ''}abvm glyphs (bases attached twice, or not at all)")
     chk.minimum("R06.10", 5)
@@ -628,7 +648,7 @@ MUTANTS = [
     M("mark anchors on the baseline skipped", "ufo2ft/featureWriters/markFeatureWriter.py", "MarkFeatureWriter._makeMarkClassDefinitions",
       "mcd = self._defineMarkClass(glyphName, anchor.x, anchor.y, className, currentClasses)", "if not anchor.y:\n    continue\nmcd = self._defineMarkClass(glyphName, anchor.x, anchor.y, className, currentClasses)", rule="R06.9"),
     M("mark class anchor swaps x and y", "ufo2ft/featureWriters/markFeatureWriter.py", "MarkFeatureWriter._defineMarkClass",
-      "ast.Anchor(x=otRoundIgnoringVariable(x), y=otRoundIgnoringVariable(y))", "ast.Anchor(x=otRoundIgnoringVariable(y), y=otRoundIgnoringVariable(x))", rule="R06.1"),
+      "ast.Anchor(x=otRoundIgnoringVariable(x), y=otRoundIgnoringVariable(y))", "ast.Anchor(x=otRoundIgnoringVariable(y), y=otRoundIgnoringVariable(x))", rule="R06.4"),
     M("base anchors not rounded", "ufo2ft/featureWriters/markFeatureWriter.py", "AbstractMarkPos._marksAsAST",
       "ast.Anchor(x=otRoundIgnoringVariable(anchor.x), y=otRoundIgnoringVariable(anchor.y))", "ast.Anchor(x=anchor.x, y=otRoundIgnoringVariable(anchor.y))", rule="R06.1"),
     M("ligature anchor y from x", "ufo2ft/featureWriters/markFeatureWriter.py", "MarkToLigaPos._marksAsAST",
